@@ -2,6 +2,7 @@
 // The writer stores utf8(name) and sets the language-encoding flag (bit 11) exactly for non-ASCII names (lfh_of / cdh_of,
 // flags_of: proved of write_local_file_header / write_central_directory_header); the readers decode the stored bytes with
 // decode_text(flags, bytes) (proved of central_header_to_zip_file_inner / read_zipfile_from_stream).  This lemma closes the loop.
+// @props: C19 C01 -- a name the writer stores (utf8 bytes, bit 11 iff non-ASCII) decodes back to the same string
 pub proof fn lemma_written_name_reads_back(f: ZipFileData)
     ensures
         decode_text(flags_of(f), utf8(f.file_name@)) == f.file_name@,
